@@ -119,7 +119,8 @@ def decide(name, pairs, recs, key, what, pl, pre):
     r, m = core.check(list(pre) + [z3.Or(*dis)], timeout_ms=120000)
     recs.append(q(name, r, ms=(time.time() - t0) * 1000, terms=len(dis)))
     if r == 'sat':
-        recs.append(cex(key, what, pl, name=name))
+        # the instants the solver used go with the counterexample: the replay runs on them as well as on its own
+        recs.append(cex(key, what, dict(pl, vals=core.model_vals(m, ('t0', 'sr', 't_set', 'delta', 'gap', 't_x', 't_y', 't_ant'))), name=name))
 
 
 def job_stream(asc, N, custom):
@@ -413,18 +414,19 @@ def replay_resync(p):
     for st in ant.streams:
         st.add_signal(lambda ts: np.asarray(ts) * 7.0)          # sample value = 7 * its own time
     ant.get_samples(2)
-    ant.t_start, ant.start_obs = 3.25, True
+    # (instants that are not whole numbers of sample periods)
+    ant.t_start, ant.start_obs = 3.25007, True
     for st, t_ in zip(ant.streams, (9.0, 11.5)):
         st.t_start, st.start_obs = t_, False
     if p['op'] == 'set_time':
-        ant.set_time(20.0)
-        want = 20.0
+        ant.set_time(20.00041)
+        want = 20.00041
     elif p['op'] == 'add_time':
-        ant.add_time(0.75)
-        want = 4.0
+        ant.add_time(0.75003)
+        want = 3.25007 + 0.75003
     else:
         ant.reset_start()
-        want = 3.25
+        want = 3.25007
     clocks = [ant.t_start] + [st.t_start for st in ant.streams]
     flags = [ant.start_obs] + [st.start_obs for st in ant.streams]
     v = ant.get_samples(1)
@@ -433,10 +435,31 @@ def replay_resync(p):
 
 
 # ------------------------------------------------------------------ concrete oracle
+def usable_vals(p):
+    """instants from the solver's model, if they are of a size at which the closed form can be compared in binary64"""
+    v = p.get('vals') or {}
+    if not v or not (1e-3 <= v.get('sr', 1.0) <= 1e6) or any(abs(x) > 1e5 for x in v.values()):
+        return None
+    return v
+
+
 def replay_stream(p):
+    bad, msg = _replay_stream(p, None)
+    v = usable_vals(p)
+    if not bad and v:
+        bad, msg = _replay_stream(p, v)
+        msg = f"with the solver's instants {v}: {msg}"
+    return bad, msg
+
+
+def _replay_stream(p, vals):
     from setigen.voltage import data_stream as ds
     asc, custom, comp, ops = p['asc'], p['custom'], p['comp'], p.get('ops', [])
-    sr, fch1, t0, f0, d, lvl, ph = 1000.0, 100.0, 2.5, 180.0, 30.0, 1.7, 0.3
+    sr, fch1, t0, f0, d, lvl, ph = 1000.0, 100.0, 2.50031, 180.0, 30.0, 1.7, 0.3
+    # instants that are not whole numbers of sample periods
+    t_set, delta = 7.2503137, 0.50007
+    if vals:
+        sr, t0, t_set, delta = vals.get('sr', sr), vals.get('t0', t0), vals.get('t_set', t_set), vals.get('delta', delta)
     cf = {'real': lambda ts: 0.25 * ts ** 2, 'complex': lambda ts: np.sin(ts) + 1j * ts, 'complex_first': lambda ts: np.sin(ts) + 1j * ts,
           'int': lambda ts: np.full(len(ts), 3)}.get(custom)
 
@@ -477,11 +500,11 @@ def replay_stream(p):
         t, draws = t0 + n1 / sr, n1
         for op in ops:
             if op == 'set':
-                s.set_time(7.25)
-                t = 7.25
+                s.set_time(t_set)
+                t = t_set
             elif op == 'add':
-                s.add_time(0.5)
-                t += 0.5
+                s.add_time(delta)
+                t += delta
             elif op == 'reset':
                 s.add_time(0)
             else:
@@ -528,9 +551,9 @@ def replay_antenna(p):
     for st in a.streams:
         if abs(st.t_start - a.t_start) > 1e-9 or abs(a.t_start - (t0 + N / sr)) > 1e-9:
             msgs.append("antenna clock differs from its streams / expected instant")
-    a.set_time(9.0)
-    if any(abs(st.t_start - 9.0) > 0 for st in a.streams) or not a.start_obs:
-        msgs.append("set_time not propagated")
+    a.set_time(9.00017)
+    if any(abs(st.t_start - 9.00017) > 0 for st in a.streams) or a.t_start != 9.00017 or not a.start_obs:
+        msgs.append(f"set_time(9.00017) not propagated exactly: antenna {a.t_start!r}, streams {[st.t_start for st in a.streams]}")
     return bool(msgs), '; '.join(msgs) or 'antenna ok'
 
 
